@@ -37,9 +37,6 @@ def panicSites : List String := [
   "csv.OptionalColumn.ReadOr: index c.f.currentRow.cells[c.i]  [unguarded: csv: index []string]",
   "csv.RequiredColumn.Read: index c.f.currentRow.cells[c.i]  [unguarded: csv: index []string]",
   "csv.RequiredColumn.Read: index r.cells[c.i]  [guard: bounds-checked]",
-  "csv.hasBOM: index head[0]  [guard: len-checked]",
-  "csv.hasBOM: index head[1]  [guard: len-checked]",
-  "csv.hasBOM: index head[2]  [guard: len-checked]",
   "extensions/nyctalerts.buildMetadata: assert proto.GetExtension(alert, gtfsrt.E_MercuryAlert).(*gtfsrt.MercuryAlert)  [unguarded: extensions/nyctalerts: assert interface{}]",
   "extensions/nyctalerts.buildMetadata: index activePeriodTranslations[0]  [guard: len-checked]",
   "extensions/nyctalerts.extension.UpdateAlert: deref *ID  [unguarded: extensions/nyctalerts: deref *string]",
@@ -134,8 +131,8 @@ def panicSites : List String := [
   "gtfs.parseVehicle: deref *vehiclePosition.CongestionLevel  [guard: nil-checked]",
   "gtfs.parseVehicleDescriptor: deref *s  [guard: nil-checked]",
   "journal.BuildJournal: deref *trips[tripID]  [unguarded: journal: deref *journal.Trip]",
-  "journal.DirectoryGtfsrtSource.Next: index s.fileNames[0]  [guard: len-checked]",
-  "journal.DirectoryGtfsrtSource.Next: slice s.fileNames[1:]  [guard: len-checked]",
+  "journal.DirectoryGtfsrtSource.Next: index s.filePaths[0]  [guard: len-checked]",
+  "journal.DirectoryGtfsrtSource.Next: slice s.filePaths[1:]  [guard: len-checked]",
   "journal.Trip.markPast: index trip.StopTimes[i]  [guard: bounds-checked]",
   "journal.Trip.update: index p.new[i]  [guard: range-index]",
   "journal.Trip.update: index p.past[i]  [guard: range-index]",
